@@ -1449,6 +1449,10 @@ class SpaceManager(SharedSpaceOperations):
 
     def set_cells_property(self, cells, flags, func, enable_cache):
         """Set formula and/or is_enabled"""
+        if flags & UserCellsImpl.PROP_FORMULA:
+            # Raise before changing anything if func is not a valid formula
+            Formula(func, name=cells.name)
+
         define = True
         for space in self._get_subs(cells.parent, skip_self=False):
             c = space.cells[cells.name]
